@@ -108,10 +108,6 @@ end Pharmpy.C16
 
 namespace Pharmpy.C16
 
-theorem storeEntryBody_avoids_pending (m : MDesc) (k : String) :
-    ∀ fs o, o ∈ (storeEntryBody m fs).1 → o.path ≠ pendingPath k :=
-  fun _ _ ho => bodyFoot_ne_pending k (storeEntryBody_paths ho)
-
 /-- **No partially written entry is ever visible as complete** (the crashed
     key): whatever a reader obtains for the key of an interrupted
     `store_model_entry` is what it would have obtained before the call started,
@@ -137,61 +133,6 @@ theorem visible_subset_committed (m : MDesc) (fs : FS) (j : Nat) (n : Option Nat
     simp [h1] at h
   · right
     exact ⟨h1, by simp only [dbStoreEntry] at h ⊢; rwa [h2] at h⟩
-
-/-- A reader of key `k` that found its entry depends only on files the later
-    store of another key never addresses. -/
-theorem readEntry_ok_congr {k : String} {fs fs' : FS} {e : Entry}
-    (h1 : get fs' (modelPath k "mod") = get fs (modelPath k "mod"))
-    (h2 : get fs' (modelPath k "ctl") = get fs (modelPath k "ctl"))
-    (h3 : get fs' (resultsPath k) = get fs (resultsPath k))
-    (h4 : ∀ n, pexists fs (datasetsDir ++ [.csv n]) = true →
-      get fs' (datasetsDir ++ [.csv n]) = get fs (datasetsDir ++ [.csv n]) ∧
-      get fs' (datasetsDir ++ [.dinfo n]) = get fs (datasetsDir ++ [.dinfo n]))
-    (h : readEntry k fs = .ok e) : readEntry k fs' = .ok e := by
-  have hf : findModel k fs' = findModel k fs := by
-    unfold findModel isFile; rw [h1, h2]
-  unfold readEntry at h ⊢
-  rw [hf]
-  cases hm : findModel k fs with
-  | none => rw [hm] at h; cases h
-  | some p =>
-    have hp : get fs' p = get fs p := by
-      simp only [findModel] at hm
-      split at hm
-      · cases hm; exact h1
-      · split at hm
-        · cases hm; exact h2
-        · cases hm
-    rw [hm] at h
-    have hrp : read fs' p = read fs p := by simp only [read, hp]
-    simp only [hrp, h3] at h ⊢
-    cases hrd : read fs p with
-    | none => simp [hrd] at h
-    | some c =>
-      cases c with
-      | text cs => simp [hrd] at h
-      | part t q => simp [hrd] at h
-      | full t =>
-        cases t with
-        | model code ref =>
-          simp only [hrd] at h ⊢
-          cases ref with
-          | none => exact h
-          | some r =>
-            simp only at h ⊢
-            cases hc : get fs (datasetsDir ++ [.csv r]) with
-            | none => simp [read, hc] at h
-            | some nd =>
-              have := h4 r (by simp [pexists, hc])
-              have e1 : read fs' (datasetsDir ++ [.csv r]) = read fs (datasetsDir ++ [.csv r]) := by
-                simp only [read, this.1]
-              have e2 : read fs' (datasetsDir ++ [.dinfo r]) = read fs (datasetsDir ++ [.dinfo r]) := by
-                simp only [read, this.2]
-              rw [e1, e2]; exact h
-        | csv d => simp [hrd] at h
-        | dinfo d q => simp [hrd] at h
-        | results r => simp [hrd] at h
-        | mdata r => simp [hrd] at h
 
 /-- **Entries committed earlier remain intact and retrievable**: an entry that
     a reader obtained for key `k` is obtained unchanged after any later
@@ -537,32 +478,6 @@ namespace Pharmpy.C16
 
 /-! ### annotations -/
 
-/-- The lines `store_annotation` writes. -/
-def annLines (name ann : List Char) (ls : List (List Char)) : List (List Char) :=
-  let ls' := ls.map (fun l => if lineKey l = name then annLine name ann else l)
-  if ls.any (fun l => lineKey l = name) then ls' else ls' ++ [annLine name ann]
-
-theorem storeAnnotationText_lines (name ann : List Char) (ls : List (List Char)) (h : ∀ l ∈ ls, WfLine l) :
-    storeAnnotationText name ann ls.flatten = (annLines name ann ls).flatten := by
-  simp only [storeAnnotationText, annLines, readlines_flatten ls h]
-
-theorem annLines_wf (name ann : List Char) (ls : List (List Char)) (h : ∀ l ∈ ls, WfLine l)
-    (hw : WfLine (annLine name ann)) : ∀ l ∈ annLines name ann ls, WfLine l := by
-  intro l hl
-  simp only [annLines] at hl
-  have hmap : ∀ l ∈ ls.map (fun l => if lineKey l = name then annLine name ann else l), WfLine l := by
-    intro l hl
-    rw [List.mem_map] at hl
-    obtain ⟨l0, hl0, rfl⟩ := hl
-    split
-    · exact hw
-    · exact h l0 hl0
-  split at hl
-  · exact hmap l hl
-  · rcases List.mem_append.mp hl with hl | hl
-    · exact hmap l hl
-    · simp at hl; subst hl; exact hw
-
 /-- **Annotation round trip** — for a name without blank or line break and an
     annotation without line break, on any annotations file made of complete
     lines: the stored annotation comes back verbatim. -/
@@ -618,6 +533,37 @@ theorem annotation_wf_preserved (name ann : List Char) (ls : List (List Char)) (
     ∃ ls' : List (List Char), storeAnnotationText name ann ls.flatten = ls'.flatten ∧ ∀ l ∈ ls', WfLine l :=
   ⟨annLines name ann ls, storeAnnotationText_lines name ann ls h,
     annLines_wf name ann ls h (wf_annLine name ann hn1 hn2 ha1 ha2)⟩
+
+/-- **Frame**: storing the annotation of one name leaves the annotation every
+    other name retrieves unchanged (crash-free). -/
+theorem annotation_frame (name ann other : List Char) (ls : List (List Char)) (h : ∀ l ∈ ls, WfLine l)
+    (hn0 : ' ' ∉ name) (hn1 : '\n' ∉ name) (hn2 : '\r' ∉ name) (ha1 : '\n' ∉ ann) (ha2 : '\r' ∉ ann)
+    (hne : other ≠ name) :
+    retrieveAnnotationText other (storeAnnotationText name ann ls.flatten)
+      = retrieveAnnotationText other ls.flatten := by
+  have hw := wf_annLine name ann hn1 hn2 ha1 ha2
+  rw [storeAnnotationText_lines name ann ls h]
+  unfold retrieveAnnotationText
+  rw [readlines_flatten _ (annLines_wf name ann ls h hw), readlines_flatten _ h]
+  have hkey := lineKey_annLine name ann hn0
+  have hno : ¬ name = other := fun e => hne e.symm
+  have hpa : (fun l : List Char => decide (lineKey l = other)) (annLine name ann) = false := by
+    simp [hkey, hno]
+  have hmap : (ls.map (fun l => if lineKey l = name then annLine name ann else l)).find?
+      (fun l => decide (lineKey l = other)) = ls.find? (fun l => decide (lineKey l = other)) := by
+    apply find?_map_congr
+    intro l _
+    by_cases hk : lineKey l = name
+    · have : ¬ lineKey l = other := fun e => hne (e.symm.trans hk)
+      simp [hk, hkey, hno]
+    · simp [hk]
+  have hfind : (annLines name ann ls).find? (fun l => decide (lineKey l = other))
+      = ls.find? (fun l => decide (lineKey l = other)) := by
+    simp only [annLines]
+    split
+    · exact hmap
+    · rw [find?_append_false (fun l : List Char => decide (lineKey l = other)) _ _ hpa]; exact hmap
+  rw [hfind]
 
 /-- The full statement is false of the code: an annotation with a line break
     is cut, and a torn rewrite of the annotations file loses or cuts the
